@@ -684,9 +684,20 @@ func textCheck(w *World, mi *MIdx, op Op, i int, state string) bool {
 			tpart = want[r.ID] / maxT
 		}
 		exp := op.Alpha*sim + (1-op.Alpha)*tpart
+		// tolerance of the vector part by precision class, as in C06 (int8: only for queries inside the trained
+		// range; the quantiser is re-trained at recovery, so its error is not even the same from run to run)
 		tol := 1e-4
-		if mi.Cfg.Prec != "float32" {
-			tol = 0.05
+		switch mi.Cfg.Prec {
+		case "float16":
+			tol = 0.02*op.Alpha + 1e-4
+		case "int8":
+			tol = 0.12*op.Alpha + 1e-4
+			am := float64(w.int8Range(op.Idx))
+			for _, x := range normalize32(op.Vec) {
+				if math.Abs(float64(x)) > am {
+					tol = math.Inf(1)
+				}
+			}
 		}
 		if math.Abs(exp-r.Score) > tol {
 			w.Fail("hybrid_formula", "hybrid_score", fmt.Sprintf("query %d [%s] hybrid %q alpha=%g: %s scored %.6g, alpha*sim+(1-alpha)*text/max = %g*%.6g + %g*%.6g = %.6g", i, state, op.Q, op.Alpha, r.ID, r.Score, op.Alpha, sim, 1-op.Alpha, tpart, exp), i)
